@@ -63,6 +63,7 @@ def code_lines(path):
 
 
 ONLY_SECOND = False
+THIRD = False
 
 
 def gen(files, maxn, seed):
@@ -85,12 +86,25 @@ def gen(files, maxn, seed):
                         continue
                     new = l[:m.start()] + rep + l[m.end():]
                     ms.append({"file": f, "line": i + 1, "op": "%s -> %s" % (pat, rep), "old_line": l, "new_line": new})
-            # statement deletion: a call statement on one line
+            # third family: swap two adjacent one-line statements; bump an integer literal
+            if THIRD:
+                st0 = l.strip()
+                nxt = src[i + 1] if i + 1 < len(src) else ""
+                if st0.endswith(";") and nxt.strip().endswith(";") and (len(l) - len(l.lstrip())) == (len(nxt) - len(nxt.lstrip())) and \
+                        not nxt.strip().startswith(("//", "}", "use ", "#[")) and not st0.startswith(("use ", "#[", "}")) and st0 != nxt.strip() and \
+                        st0.count("(") == st0.count(")") and nxt.count("(") == nxt.count(")"):
+                    ms.append({"file": f, "line": i + 1, "op": "swap with next statement", "old_line": l, "new_line": nxt + "\n" + l, "swap": True, "old_next": nxt})
+                for m in re.finditer(r"(?<![\w.])(\d+)(?![\w.])", l):
+                    if "//" in l[:m.start()] or "const " in l or "::<" in l[:m.start()][-12:]:
+                        continue
+                    ms.append({"file": f, "line": i + 1, "op": "literal +1", "old_line": l, "new_line": l[:m.start()] + str(int(m.group(1)) + 1) + l[m.end():]})
             st = l.strip()
             if not ONLY_SECOND and st.endswith(";") and not st.startswith(("let ", "return", "use ", "pub ", "const ", "static ", "break", "continue", "}")) and "(" in st and "=" not in st.split("(")[0]:
                 if st.endswith("?;") or st.endswith(");") or st.endswith(".ok();"):
                     ms.append({"file": f, "line": i + 1, "op": "delete statement", "old_line": l, "new_line": l[:len(l) - len(l.lstrip())] + "// (deleted)"})
     rnd.shuffle(ms)
+    if THIRD:
+        ms = [m for m in ms if m["op"].startswith(("swap", "literal"))]
     if maxn:
         ms = ms[:maxn]
     for k, m in enumerate(ms):
@@ -110,6 +124,10 @@ def scratch_with(m):
     if s[m["line"] - 1] != m["old_line"]:
         return d, "stale"
     s[m["line"] - 1] = m["new_line"]
+    if m.get("swap"):
+        if s[m["line"]] != m["old_next"]:
+            return d, "stale"
+        s[m["line"]] = "// (swapped up)"
     open(p, "w").write("\n".join(s))
     return d, None
 
@@ -176,6 +194,11 @@ def main():
     ap.add_argument("--seed", type=int, default=1)
     ap.add_argument("--jobs", type=int, default=8)
     a = ap.parse_args()
+    if a.cmd == "gen3":
+        global THIRD
+        THIRD = True
+        gen(a.files.split(",") if a.files else DEFAULT_FILES, a.max, a.seed)
+        return
     if a.cmd == "gen2":
         global ONLY_SECOND
         ONLY_SECOND = True
